@@ -12,6 +12,9 @@
 (*  ClassLaw    Classify over every (method kind, message type, set of     *)
 (*              fields present) agrees with the case table of the property *)
 (*  FrameLaw    FrameAt returns the next 4 + sz bytes of a stream          *)
+(*  RunLaw      a text / list / byte stream in run form encodes exactly as *)
+(*              the sequence it stands for (patterns x counts, several     *)
+(*              runs, empty runs, multi-byte code points)                  *)
 (***************************************************************************)
 EXTENDS TBinaryWire
 
@@ -41,8 +44,13 @@ FieldVal(m, id) ==
   ELSE IF id = 77 THEN I32(123456)
   ELSE [t |-> "struct", f |-> <<[id |-> 1, v |-> Str(<<119>>)], [id |-> 2, v |-> I32(3)]>>]
 
+\* run-form probes: up to two runs of short patterns
+Pats == {<<>>, <<97>>, <<252>>, <<97, 8364>>, <<128512, 98, 233>>}
+Runs == {<<>>} \cup {<<[p |-> p1, n |-> n1]>> : p1 \in Pats, n1 \in 0..3}
+        \cup {<<[p |-> p1, n |-> n1], [p |-> p2, n |-> n2]>> : p1 \in Pats, p2 \in {<<98>>, <<233, 99>>}, n1 \in {1, 3}, n2 \in {0, 2}}
+
 Init ==
-  probe \in [k : {"int"}, n : Ints] \cup [k : {"cp"}, c : Cps] \cup [k : {"val"}, v : Values]
+  probe \in [k : {"int"}, n : Ints] \cup [k : {"runs"}, r : Runs] \cup [k : {"cp"}, c : Cps] \cup [k : {"val"}, v : Values]
             \cup [k : {"reply"}, m : ProbeMethods, mt : 1..4, ids : SUBSET FieldIds, seq : {0, 7, -1}]
             \cup [k : {"frame"}, sz : 0..3, extra : 0..2, cut : 0..9]
 Next == UNCHANGED probe
@@ -100,6 +108,22 @@ ClassLaw == probe.k = "reply" =>
        [] probe.mt = TReply /\ (void \/ 0 \notin probe.ids) /\ Cardinality(raised) = 2 -> c.kind = "unspecified"
        [] probe.mt = TReply /\ void /\ raised = {} -> c.kind = "none"
        [] OTHER -> c.kind = "unspecified"
+
+RunLaw == probe.k = "runs" =>
+  LET cps == ExpandRuns(probe.r)
+      plain == Str(cps)
+      runs == [t |-> "str", v |-> <<>>, r |-> probe.r]
+      \* the same runs read as a list of texts: every code point becomes a one-character element
+      AsElems(p) == [i \in DOMAIN p |-> Str(<<p[i]>>)]
+      lplain == [t |-> "list", et |-> "str", v |-> AsElems(cps)]
+      lruns == [t |-> "list", et |-> "str", v |-> <<>>,
+                r |-> [i \in DOMAIN probe.r |-> [p |-> AsElems(probe.r[i].p), n |-> probe.r[i].n]]]
+  IN /\ Len(cps) = RunsLen(probe.r)
+     /\ Utf8Runs(probe.r) = Utf8(cps)
+     /\ EncVal(runs) = EncVal(plain)
+     /\ EncVal(lruns) = EncVal(lplain)
+     /\ Encodable(runs) /\ Encodable(lruns)
+     /\ Skip(EncVal(lruns), 0, TList) = Len(EncVal(lplain))
 
 FrameLaw == probe.k = "frame" =>
   LET body == [i \in 1..probe.sz |-> 16 + i]
